@@ -5,5 +5,5 @@ for d in seeded/*/; do
   name=$(basename "$d")
   id=$(python3 -c "import json;print(json.load(open('$d/meta.json'))['property'])")
   echo "##### seed $name (property $id)"
-  tools/try_seed.sh "$name" "$id" 2>&1 | grep -E "^(VIOLATION|C[0-9]+ |patch|KNOWN)" | cut -c1-260 | head -6
+  tools/try_seed.sh "$name" "$id" 2>&1 | grep -aE "^(VIOLATION|C[0-9]+ |patch|KNOWN)" | cut -c1-260 | head -6
 done
